@@ -500,6 +500,49 @@ theorem getstyle_newstyle_custom_new (dec : Str → Int) {r r' : Reg} {s s' : St
       omega
   rw [e3, extractNumFmt_new_code dec r' _ hl (fun nf hnf => by have := w.numTop nf hnf; omega) hb hlang]
 
+/-! ## custom number-format codes -/
+
+/-- the extractor pins that `getCustomNumFmtID` compares format codes with `==` (exact bytes); the
+model's lookup `(·.code == c)` is that comparison -/
+theorem custom_lookup_is_exact : Facts.C17.customCodeExactEq = true := by decide
+
+theorem sorted_history {r : Reg} (w : WF r) (hs : IdsSorted r) (ss : List Style) : IdsSorted (runNew r ss) := by
+  induction ss generalizing r with
+  | nil => exact hs
+  | cons s t ih =>
+    simp only [runNew]
+    split
+    · rename_i r' _ _ h; exact ih (newStyle_spec w h).2.1 (newStyle_sorted w hs h)
+    · exact ih w hs
+
+/-- **custom_code_injective** ("dedup only of equal definitions", number-format part): in every
+registry reachable from `NewFile()` by any history of `NewStyle` calls, two custom format codes that
+resolve to the same numFmt id are the same byte string — codes differing in letter case, spaces,
+quoting or escapes never share an id (numFmt ids are strictly increasing along the list, and the
+lookup compares codes exactly) -/
+theorem custom_code_injective (ss : List Style) (c1 c2 : Str) (n : Nat)
+    (h1 : getCustomNumFmtID (runNew initReg ss) c1 = some n)
+    (h2 : getCustomNumFmtID (runNew initReg ss) c2 = some n) : c1 = c2 := by
+  have hs : IdsSorted (runNew initReg ss) :=
+    sorted_history wf_init (by unfold IdsSorted; simp [numFmtList, initReg]) ss
+  obtain ⟨a, ha, hca, hia⟩ := getCustomNumFmtID_mem h1
+  obtain ⟨b, hb, hcb, hib⟩ := getCustomNumFmtID_mem h2
+  have := sorted_id_inj hs ha hb (by rw [hia, hib])
+  rw [← hca, ← hcb, this]
+
+/-- … and a custom code that is stored is found under exactly the id it was stored with, whatever
+is registered later (lookup is stable over histories) -/
+theorem custom_code_lookup_stable (ss tt : List Style) (c : Str) (n : Nat)
+    (h : getCustomNumFmtID (runNew initReg ss) c = some n) :
+    getCustomNumFmtID (runNew (runNew initReg ss) tt) c = some n := by
+  have w := wf_reachable ss
+  obtain ⟨e, he, _⟩ := (ext_history w tt).nums
+  unfold getCustomNumFmtID at h ⊢
+  rw [he, List.find?_append]
+  cases hf : (numFmtList (runNew initReg ss)).find? (·.code == c) with
+  | none => rw [hf] at h; cases h
+  | some nf => rw [hf] at h; simpa using h
+
 /-! ### non-vacuity and the positive cases -/
 
 /-- a plain definition is deduplicated and read back (bold font, solid fill, border, protection,
